@@ -261,13 +261,30 @@ Section Norm.
     { destruct Ho as [->|[->| ->]]; [by_lemma shl_0_l|by_lemma shr_0_l|by_lemma sar_0_l]. }
     brk; facts.
     { destruct Ho as [->|[->| ->]]; [by_lemma shl_x_0|by_lemma shr_x_0|by_lemma sar_x_0]. }
-    brk; [|dflt]. facts.
-    destruct a as [c| | | | | | | | | | | | | | | ]; try discriminate.
-    match goal with H : big_shift (TConst c) = true |- _ => cbn [big_shift] in H; apply Z.leb_le in H end.
-    destruct Ho as [->|[->| ->]].
-    - unfold ok. split; [reflexivity|]. cbn [evalw eval_op2]. symmetry. apply shl_big. assumption.
-    - unfold ok. split; [reflexivity|]. cbn [evalw eval_op2]. symmetry. apply shr_big. assumption.
-    - match goal with H : negb (op2_eqb SAR SAR) = true |- _ => discriminate H end.
+    brk.
+    { facts.
+      destruct a as [c| | | | | | | | | | | | | | | ]; try discriminate.
+      match goal with H : big_shift (TConst c) = true |- _ => cbn [big_shift] in H; apply Z.leb_le in H end.
+      destruct Ho as [->|[->| ->]].
+      - unfold ok. split; [reflexivity|]. cbn [evalw eval_op2]. symmetry. apply shl_big. assumption.
+      - unfold ok. split; [reflexivity|]. cbn [evalw eval_op2]. symmetry. apply shr_big. assumption.
+      - match goal with H : negb (op2_eqb SAR SAR) = true |- _ => discriminate H end. }
+    destruct (op2_eqb o SHL) eqn:EO; [|dflt].
+    destruct (shl_mask_view a b) as [y|] eqn:V; [|dflt].
+    assert (o = SHL) by (destruct o; try discriminate EO; reflexivity). subst o.
+    unfold shl_mask_view in V.
+    destruct a as [s| | | | | | | | | | | | | | | ]; try discriminate V.
+    destruct b as [| | | | | |o0 b1 b2| | | | | | | | | ]; try discriminate V.
+    destruct o0; try discriminate V.
+    destruct b1 as [c| | | | | | | | | | | | | | | ]; try discriminate V.
+    destruct ((0 <=? s) && (s <? 256) && (Z.land c (Z.ones (256 - s)) =? Z.ones (256 - s))) eqn:G; [|discriminate V].
+    inversion V; subst b2. clear V.
+    apply andb_true_iff in G. destruct G as [G G3]. apply andb_true_iff in G. destruct G as [G1 G2].
+    apply Z.leb_le in G1. apply Z.ltb_lt in G2. apply Z.eqb_eq in G3.
+    cbn [wsort] in Hb. repeat (apply andb_true_iff in Hb; destruct Hb as [Hb ?]).
+    unfold ok. cbn [wsort evalw eval_op2]. split.
+    - cbn [wsort] in Ha. rewrite Ha. match goal with Hy : wsort y = true |- _ => rewrite Hy end. reflexivity.
+    - symmetry. apply shl_mask_drop; [lia|exact G3].
   Qed.
 
   Ltac sorts := cbn [wsort] in *;
